@@ -167,8 +167,180 @@ def _reduction(model: Model, R: RuleResult):
 
 
 # ------------------------------------------------------------------------------------------ C05-T
+class _Ax:
+    """a tensor seen through its last axis: the list of symbols along it (eigenvalues e0 < e1 < .. in ascending order, eigenvector
+    columns v0, v1, .., or integer positions); the leading axes are carried along unchanged"""
+    _xv_methods = ("flip", "unsqueeze", "expand", "size", "topk", "sort", "argsort", "index_select", "gather", "contiguous", "clone", "narrow")
+
+    def __init__(self, items, lead=("B",)):
+        self.items, self.lead = list(items), tuple(lead)
+
+    def __repr__(self):
+        return "[%s]" % ", ".join(str(x) for x in self.items)
+
+    @property
+    def shape(self):
+        return list(self.lead) + [len(self.items)]
+
+    def _last(self, d):
+        from ..domains.dictsem import Unsupported
+        if d not in (-1, len(self.lead)):
+            raise Unsupported("operation along axis %r" % (d,))
+
+    def getitem(self, key):
+        from ..domains.dictsem import Unsupported
+        if isinstance(key, tuple) and len(key) == 2 and key[0] is Ellipsis:
+            k = key[1]
+        elif isinstance(key, tuple) and len(key) == len(self.lead) + 1 and all(x == slice(None) for x in key[:-1]):
+            k = key[-1]
+        else:
+            raise Unsupported("subscript %r" % (key,))
+        if isinstance(k, slice):
+            return _Ax(self.items[k], self.lead)
+        if isinstance(k, _Ax) and all(isinstance(i, int) for i in k.items):
+            return _Ax([self.items[i] for i in k.items], self.lead)
+        if isinstance(k, (list, tuple)) and all(isinstance(i, int) for i in k):
+            return _Ax([self.items[i] for i in k], self.lead)
+        raise Unsupported("subscript %r" % (key,))
+
+    def flip(self, *dims, **kw):
+        d = kw.get("dims", dims[0] if len(dims) == 1 else dims)
+        d = list(d) if isinstance(d, (list, tuple)) else [d]
+        for x in d:
+            self._last(x)
+        return _Ax(self.items[::-1], self.lead)
+
+    def unsqueeze(self, d):
+        from ..domains.dictsem import Unsupported
+        if d in (-1, len(self.lead) + 1):
+            raise Unsupported("unsqueeze of the last axis")
+        return _Ax(self.items, self.lead + ("1",))
+
+    def expand(self, *sizes):
+        from ..domains.dictsem import Unsupported
+        sizes = list(sizes[0]) if len(sizes) == 1 and isinstance(sizes[0], (list, tuple)) else list(sizes)
+        if not sizes or sizes[-1] not in (-1, len(self.items)):
+            raise Unsupported("expand changes the last axis")
+        return _Ax(self.items, tuple(sizes[:-1]))
+
+    def size(self, d=None):
+        if d is None:
+            return self.shape
+        return self.shape[d]
+
+    def contiguous(self):
+        return self
+
+    def clone(self):
+        return self
+
+    def narrow(self, d, start, length):
+        self._last(d)
+        return _Ax(self.items[start:start + length], self.lead)
+
+    def _rank(self):
+        from ..domains.dictsem import Unsupported
+        if not all(isinstance(x, str) and x[:1] == "e" and x[1:].isdigit() for x in self.items):
+            raise Unsupported("ordering of %r" % (self.items,))
+        return [int(x[1:]) for x in self.items]
+
+    def sort(self, dim=-1, descending=False, stable=False):
+        self._last(dim)
+        r = self._rank()
+        order = sorted(range(len(r)), key=lambda i: r[i], reverse=bool(descending))
+        return (_Ax([self.items[i] for i in order], self.lead), _Ax(order, self.lead))
+
+    def argsort(self, dim=-1, descending=False, stable=False):
+        return self.sort(dim, descending)[1]
+
+    def topk(self, k, dim=-1, largest=True, sorted=True):
+        from ..domains.dictsem import Unsupported
+        if not sorted:
+            raise Unsupported("topk(sorted=False) returns the elements in no particular order")
+        v, i = self.sort(dim, descending=bool(largest))
+        return (_Ax(v.items[:k], self.lead), _Ax(i.items[:k], self.lead))
+
+    def index_select(self, dim, idx):
+        self._last(dim)
+        return self.getitem((Ellipsis, idx))
+
+    def gather(self, dim, idx):
+        self._last(dim)
+        return self.getitem((Ellipsis, idx))
+
+
+def _take_semantic(model: Model, f: FuncInfo, T: RuleResult) -> bool:
+    """_take_eigpairs evaluated on symbolic last axes (domains/kinds.py): eigenvalues e0 < e1 < .. < e(n-1) as torch.linalg.eigh lists
+    them, eigenvector columns v0 .. v(n-1).  For mode "lowest" the result must be (e0..e(k-1); v0..v(k-1)), for "uppest"
+    (e(n-k)..e(n-1); v(n-k)..v(n-1)) - the requested end of the spectrum, in ascending order, values and vectors paired - however
+    the selection is spelled (slices, slice objects, narrow, flip, topk / sort + gather, index lists).  False: not interpretable."""
+    from ..domains.kinds import KindInterp
+    from ..domains.dictsem import Unsupported, Raised, _Return
+    pe, pv, pn, pm = f.params()[:4]
+
+    def _fn(name):
+        return lambda x, *a, **k: getattr(x, name)(*a, **k)
+
+    class It(KindInterp):
+        host = {"torch." + n: _fn(n) for n in ("flip", "topk", "sort", "argsort", "index_select", "gather", "narrow")}
+        host.update({"slice": slice, "torch.arange": lambda *a, **k: _Ax(list(range(*a)), ()), "range": lambda *a: list(range(*a)),
+                     "list": list, "len": len})
+
+        def ev(self, e):
+            if isinstance(e, ast.Subscript):
+                try:
+                    b = self.ev(e.value)
+                except Unsupported:
+                    b = None
+                if isinstance(b, _Ax):
+                    return b.getitem(self.ev(e.slice))
+            if isinstance(e, ast.Attribute) and e.attr == "shape":
+                b = self.ev(e.value)
+                if isinstance(b, _Ax):
+                    return b.shape
+            if isinstance(e, ast.Tuple):
+                return tuple(self.ev(x) for x in e.elts)
+            return super().ev(e)
+    done = 0
+    for n_, k_ in ((5, 2), (4, 4), (3, 1)):
+        for mode in ("lowest", "uppest"):
+            ev_, vc_ = _Ax(["e%d" % i for i in range(n_)]), _Ax(["v%d" % i for i in range(n_)], ("B", n_))
+            it = It({pe: ev_, pv: vc_, pn: k_, pm: mode})
+            try:
+                try:
+                    it.run(list(f.node.body))
+                    res = None
+                except _Return as r:
+                    res = r.v
+            except (Unsupported, TypeError, AttributeError, KeyError, IndexError, ValueError):
+                if done:
+                    raise AnalysisError("C05-T: _take_eigpairs is interpretable for some sizes only")
+                return False
+            except Raised as e:
+                T.bad(f, f.node, "_take_eigpairs raises for %d of %d pairs, mode %r (%s)" % (k_, n_, mode, e))
+                done += 1
+                continue
+            done += 1
+            sel = list(range(k_)) if mode == "lowest" else list(range(n_ - k_, n_))
+            want = (["e%d" % i for i in sel], ["v%d" % i for i in sel])
+            got = tuple(x.items if isinstance(x, _Ax) else x for x in res) if isinstance(res, tuple) and len(res) == 2 else res
+            what = "mode %r, neig = %d of n = %d" % (mode, k_, n_)
+            if got == want:
+                T.ok(f.fq, "%s: returns values %s and vector columns %s" % (what, want[0], want[1]))
+            else:
+                T.bad(f, f.node, "_take_eigpairs does not return the %s eigenpairs in ascending order with values and vectors paired: for %s (eigh lists e0 < e1 < ..) "
+                      "it returns %s, expected (%s, %s)" % ("lowest" if mode == "lowest" else "uppermost", what, got, want[0], want[1]), what=what)
+    return True
+
+
 def _take(model: Model, T: RuleResult):
     f = model.func(IMPL, "_take_eigpairs")
+    if not _take_semantic(model, f, T):
+        _take_structural(model, f, T)
+    _take_callsites(model, f, T)
+
+
+def _take_structural(model: Model, f: FuncInfo, T: RuleResult):
     pe, pv, pn, pm = f.params()[:4]
     ifs = [s for s in f.node.body if isinstance(s, ast.If)]
     if len(ifs) != 1:
@@ -237,6 +409,10 @@ def _take(model: Model, T: RuleResult):
         T.ok(f.fq, "returns (values, vectors) in this order")
     else:
         T.bad(f, rets[-1] if rets else f.node, "_take_eigpairs must return (values, vectors)")
+
+
+def _take_callsites(model: Model, f: FuncInfo, T: RuleResult):
+    pe, pv, pn, pm = f.params()[:4]
     # call sites: (values, vectors) of an ascending decomposition, with the caller's neig and mode
     n_sites = 0
     for g in model.module(IMPL).functions.values():
@@ -504,7 +680,25 @@ def _davidson(model: Model, D: RuleResult):
     # stopping test, best bookkeeping, return
     src = ast.unparse(loop)
     brk = [s for s in loop.body if isinstance(s, ast.If) and any(isinstance(b, ast.Break) for b in s.body)]
-    tests = [ast.unparse(s.test) for s in brk]
+    def _disjuncts(t):
+        """the alternatives of a stopping test, each comparison in a canonical orientation (a < b; == with sorted sides)"""
+        parts = t.values if isinstance(t, ast.BoolOp) and isinstance(t.op, ast.Or) else [t]
+        out = []
+        for q in parts:
+            if isinstance(q, ast.BoolOp) and isinstance(q.op, ast.Or):
+                out.extend(_disjuncts(q))
+            elif isinstance(q, ast.Compare) and len(q.ops) == 1:
+                l_, r_ = ast.unparse(q.left), ast.unparse(q.comparators[0])
+                if isinstance(q.ops[0], ast.Gt):
+                    out.append("%s < %s" % (r_, l_))
+                elif isinstance(q.ops[0], ast.Eq):
+                    out.append("%s == %s" % tuple(sorted((l_, r_))))
+                else:
+                    out.append(ast.unparse(q))
+            else:
+                out.append(ast.unparse(q))
+        return out
+    tests = [d for s in brk for d in _disjuncts(s.test)]
     eps = [p for p in f.params() + f.kwonly() if "eps" in p]
     if eps and any(t == "max_resid < %s" % eps[0] for t in tests) and has_form(loop, "max_resid = resid.abs().max()"):
         D.ok(f.fq, "the iteration stops when max|residual| < %s (all requested pairs, all batches)" % eps[0])
@@ -512,8 +706,8 @@ def _davidson(model: Model, D: RuleResult):
         D.bad(f, brk[0] if brk else loop, "the loop must stop on max|resid| < min_eps with max_resid the largest residual entry")
     # the loop is left only when the residual test succeeds or the search space is the whole space (AV square): any other exit returns
     # unconverged Ritz pairs as if they were eigenpairs
-    allowed_tests = {"max_resid < %s" % (eps[0] if eps else "min_eps"), "AV.shape[-1] == AV.shape[-2]", "AV.shape[-2] == AV.shape[-1]"}
-    other_exits = [b for b in brk if ast.unparse(b.test) not in allowed_tests]
+    allowed_tests = {"max_resid < %s" % (eps[0] if eps else "min_eps"), "AV.shape[-1] == AV.shape[-2]"}
+    other_exits = [b for b in brk if not set(_disjuncts(b.test)) <= allowed_tests]
     deep = [n for n in ast.walk(loop) if isinstance(n, (ast.Break, ast.Return)) and not any(n in b.body for b in brk)]
     if not other_exits and not deep:
         D.ok(f.fq, "the iteration is left only on max|resid| < min_eps or when the basis spans the whole space (exact Rayleigh-Ritz)")
@@ -561,7 +755,7 @@ def _davidson(model: Model, D: RuleResult):
     # initial guess is M-orthonormalised likewise
     iv = model.func(IMPL, "_set_initial_v")
     isrc = ast.unparse(iv.node)
-    ivrets = [r for r in ast.walk(iv.node) if isinstance(r, ast.Return)]
+    ivrets = [r for r in own_nodes(iv.node) if isinstance(r, ast.Return)]
     ivdefs = function_defs(iv.node)
     all_via_qr = len(ivrets) == 1 and isinstance(ivrets[0].value, ast.Name) and \
         all(isinstance(d, ast.Call) and ast.unparse(d.func) == "tallqr" for d in ivdefs.get(ivrets[0].value.id, [])[-2:]) and \
